@@ -60,7 +60,10 @@ Inductive op :=
 | ReloadTimeoutPub (c : cand)   (* goroutine publishes the candidate, then main takes the timeout branch *)
 | ReloadTimeoutFirst            (* main times out first and sets destroyNewDbi; goroutine still running *)
 | LateComplete (i : nat) (c : cand)  (* the i-th pending goroutine returns from DBI.Reload with c *)
-| Shutdown.                     (* FBDNSDB.Close *)
+| Shutdown                      (* FBDNSDB.Close *)
+| Query (mid : list N).         (* one DNS query through ServeDNSWithRCODE: AcquireReader, the lookups
+                                   (operation codes [mid], all on the backend it pinned), and the
+                                   deferred Reader.Close - nothing of it outlives the step *)
 
 (* ---- state plumbing *)
 Definition set_log (l : list event) (s : state) : state :=
@@ -123,6 +126,12 @@ Definition w_validate (w : wrapper) (haskey : bool) (s : state) : wrapper * stat
 Definition w_validate_or_destroy (w : wrapper) (haskey : bool) (s : state) : wrapper * state * bool :=
   let '(w1, s1, ok) := w_validate w haskey s in
   if ok then (w1, s1, true) else let '(w2, s2) := w_destroy w1 s1 in (w2, s2, false).
+
+(* a whole query on wrapper w: NewReader, the lookups, DataReader.Close *)
+Definition w_query (mid : list N) (w : wrapper) (s : state) : wrapper * state :=
+  let '(w1, s1) := w_new_reader w s in
+  let s2 := fold_left (fun s o => touch (w_bk w1) o s) mid s1 in
+  w_reader_close w1 s2.
 
 (* apply a wrapper function to the stored wrapper i *)
 Definition on_wrapper (i : nat) (f : wrapper -> state -> wrapper * state) (s : state) : state :=
@@ -223,6 +232,7 @@ Definition step (o : op) (s : state) : state :=
   | ReloadTimeoutFirst => reload_timeout_first s
   | LateComplete i c => late_complete i c s
   | Shutdown => set_shut true (on_wrapper (served s) w_destroy s)
+  | Query mid => on_wrapper (served s) (w_query mid) s
   end.
 
 (* error returned by the operation, as the harness classifies it:
@@ -247,7 +257,8 @@ Definition run (ops : list op) (s : state) : state := fold_left (fun s o => step
    * shutdown is terminal for acquisitions and reloads, and happens once
      (a second FBDNSDB.Close panics on close(h.done); AcquireReader/Reload after
      Close are outside the property's quantifier);
-   * LateComplete names an existing pending reload;
+   * LateComplete names an existing pending reload; the lookups of a Query are neither Open
+     nor Close calls;
    * in-flight guard: while a timed-out reload is still inside DBI.Reload, the
      served backend is neither replaced (reload-new-ok) nor shut down.  Without
      this guard the property is false, see C06_inflight_reload_refuted. *)
@@ -263,6 +274,7 @@ Definition ok_op (s : state) (o : op) : bool :=
   | Reload _ | ReloadTimeoutPub _ | ReloadTimeoutFirst => negb (shut s)
   | LateComplete i _ => Nat.ltb i (length (pending s))
   | Shutdown => negb (shut s) && no_pending s
+  | Query mid => negb (shut s) && forallb (fun o => negb (is_close o) && negb (is_open o)) mid
   end.
 
 Fixpoint wf_hist (s : state) (ops : list op) : bool :=
